@@ -20,6 +20,10 @@ def build_corpus(tier, rng):
     c = Corpus(ID)
     thorough = tier == "thorough"
     cands = [("regression", it) for it in c01.regression()] + [("systematic", it) for it in c01.systematic(rng)]
+    # names with ESCAPED braces only ({{ }}): no placeholder, so they are in the property's domain and printed verbatim
+    cands.append(("escaped", Item("E", [Variant("U", "unit", [], [tos("{{open")]), Variant("T", "tuple", [Field("u8")], [tos("close}}"), ser("c")]),
+                                        Variant("N", "named", [Field("u8", "x")], [ser("{{both}}")]), Variant("P", "unit")])))
+    cands.append(("escaped-deprecated", Item("E", [Variant("U", "unit", [], [tos("{{open")]), Variant("T", "tuple", [Field("u8")], [tos("close}}")])])))
     for st in G.STYLES:
         for rep in range(3 if thorough else 1):
             it = G.string_enum(rng, nvariants=rng.randint(4, 8), allow_style=False, custom_err=False)
@@ -36,7 +40,7 @@ def build_corpus(tier, rng):
             continue
         n += 1
         named_default = any(v.has("default") and (v.kind == "named" or v.fields[0].ty != "String") for v in it.variants)
-        deprecated = (n % 4 == 0) and not named_default     # the deprecated ToString only supports tuple default variants
+        deprecated = ((n % 4 == 0) and not named_default and fam != "escaped") or fam == "escaped-deprecated"     # the deprecated ToString only supports tuple default variants
         derives = ["EnumString", ("ToString" if deprecated else "Display"), "AsRefStr", "IntoStaticStr"]
         if it.variants:
             derives.append("EnumMessage")    # EnumMessage does not compile on a zero-variant enum (no value exists to query)
